@@ -10,6 +10,9 @@ Case families (each enumerated completely, see enumerate_cases):
   lat       on one representative per equivalence class of the AHAB database data (quick; thorough: up to three): every
             assignment of DIMS with <= k departures from the base for both kinds (k = 1 quick, 2 thorough), tamper sweep
             on every k <= 1 case (quick: on the k = 1 cases whose dimension changes the authenticated layout, AUTH_DIMS)
+  keys      full product SRK key type {P-256/384/521, RSA-2048/3072/4096, leading-zero P-256/384} x DEK blob {absent, present,
+            present + encrypted image} x certificate {absent, present (where the family supports it)} on every class
+            representative and container version, both tiers, with the tamper sweep
   grid      full product target memory x offset mode x size class x images per container x containers (structural group;
             quick: size classes {1, 13, 1026, 513}, images {1, 3}, containers {1, 2}; thorough: all)
   bytes     every byte (quick: one bit per byte; thorough: every bit while the signed part is <= 1 KiB) of the
@@ -51,6 +54,9 @@ CLAUSES = {
     "C06.tamper-ref-accepts": "the independent reader accepts a corrupted authenticated byte (oracle self-check)",
     "C06.auto-offsets-collide": "with every image offset left automatic, update_fields() places images so that they overlap "
                                 "each other or a container (export then refuses its own layout)",
+    "C06.builder-refuses-own-layout": "load_from_config accepted the configuration, but export() (its own verify()) refuses the "
+                                      "image because of an ERROR record about a field SPSDK itself computes from the layout "
+                                      "(disc = record, normalised; classification: REFUSAL_TABLE)",
     "C06.cli": "nxpimage ahab export / parse / verify disagrees with the API path or the independent reader",
 }
 
@@ -89,6 +95,64 @@ NOT_CARRIED = {"header.reserved", "image-entry.iv-unused", "sigblock.key-identif
 
 # verifier records that encode rules the independent reader does not model (no judgement when export refuses for them)
 UNJUDGED_PATHS = ("Public key checks",)
+
+# Why did export() refuse?  Classification of verifier ERROR records (matched with re.search on the record path with indices
+# normalised to N and "(...)" removed, first match wins).
+#   computed      the field is produced by SPSDK from the layout (block offsets / alignment / presence, block and container
+#                 lengths, header tag / version constants, entry size and hash, serialised key material): an ERROR there on an
+#                 object SPSDK has just laid out from an accepted configuration is SPSDK's own fault
+#   computed-auto computed only when every image offset was left automatic (otherwise the user's)
+#   user          the record is about a value the user supplied (keys, signing key, revoke mask, versions, flags, addresses,
+#                 explicit sizes/counts) - a refusal is a legitimate rejection
+#   other-clause  judged elsewhere with the reader's help (C06.auto-offsets-collide)
+# A record that matches no row is "unknown": the case stays "rejected" and the record is counted by name in the evidence
+# (counters refusal:unknown:<record>), e.g. "Image Encryption/Decrypted data", which is used both for "Missing Blob container"
+# (user) and for an IV mismatch (computed).
+REFUSAL_TABLE = [
+    (r"/Header/(Tag|Length|Version)/(Range|Value|Computed length)$", "computed", "header constants and computed block lengths"),
+    (r"/Signature Block/(SRK Table|Signature|Certificate|Blob)/(Offset|Block validity|Block)$", "computed",
+     "offset / alignment / presence of a signature-block part (SignatureBlock.update_fields)"),
+    (r"/Signature Block offset$", "computed", "offset of the signature block behind the image array"),
+    (r"/Container offset$", "computed", "container slot derived from its index"),
+    (r"/Image array/Image count$", "computed", "image count field vs. the array"),
+    (r"/AHAB Image Array Entry[^/]*/Image$", "computed", "size written in the entry vs. the stored image"),
+    (r"/AHAB Image Array Entry[^/]*/Image hash$", "computed", "hash SPSDK computed itself"),
+    (r"/AHAB Image Array Entry[^/]*/Offset in container$", "computed-auto", "image offset relative to the container"),
+    (r"/Serial Downloader mode offset$", "computed", "offsets are always assigned by SPSDK for the serial downloader"),
+    (r"/SRK record\[N\]/(SRK Length|Crypto parameter N|SRK Data Crypto parameter N|SRK Data Hash Length|SRK Data Hash)$", "computed",
+     "serialisation of the key numbers / SRK data hash"),
+    (r"/Public key N/(SRK Length|SRK Data Crypto parameter N|SRK Data Hash Length|SRK Data Hash)$", "computed",
+     "certificate key record serialisation"),
+    (r"/SRK DataN exists$", "computed", "SRK data of the selected key is attached by SPSDK"),
+    (r"/Certificate/Signature offset$", "computed", "offset of the certificate signature"),
+    (r"/Image overlapping$", "other-clause", "explicit offsets are the user's; automatic placement -> C06.auto-offsets-collide"),
+    (r"/Container signing/(Used SRK key ID|Signature|SRK Table & Signature block presence|Signature counts)$", "user",
+     "revoke mask / signing key / SRK table supplied by the user"),
+    (r"/Signature #N/Signature$", "user", "signing key supplied by the user (container version 2)"),
+    (r"/Container N/(Flags|Flags: SRK Set|Flags: SRK Selection|Flags: SRK Revoke mask|SW version|Fuse version|"
+     r"Glitch detector runtime behavior|Container authenticity|Image array|Signature block)$", "user", "container options"),
+    (r"^(Containers count)$|/Container image count$", "user", "number of containers / images"),
+    (r"/AHAB Image Array Entry[^/]*/(Image Size \[B\]|Load address|Entry point)$", "user", "image file size / addresses"),
+    (r"/AHAB Image Array Entry[^/]*/(Flags|Metadata)/", "user", "image type, core, hash type, boot flags, meta data"),
+    (r"/SRK record\[N\]/(Signing algorithm|Signing hash algorithm|Key size|Flags/Range)$", "user", "follows from the key files"),
+    (r"/SRK table/(Count|Signing algorithm|Hash algorithm|Key Size|Length|Flags)$", "user", "mixed / missing SRK keys"),
+    (r"/Tables count$", "user", "number of SRK tables"),
+    (r"/Certificate/(Permissions|Permission Data|Fuse version|UUID|Public key N)$", "user", "certificate options"),
+    (r"/SRK checks/|/Public key checks/", "user", "certificate vs. SRK keys (keys and signing key supplied by the user)"),
+    (r"/Blob/Blob/(Key size|Mode|Algorithm|DEK key|Wrapped key)$", "user", "DEK / key blob options"),
+    (r"/Key identifier$", "user", "key identifier option"),
+]
+
+
+def classify_refusal(path: str, auto_offsets: bool) -> tuple:
+    """-> (class, normalised record name) of a verifier ERROR record path."""
+    for rx, cls, _why in REFUSAL_TABLE:
+        if re.search(rx, path):
+            if cls == "computed-auto":
+                cls = "computed" if auto_offsets else "user"
+            return cls, short_path(path)
+    return "unknown", short_path(path)
+
 
 # reader stages whose SPSDK counterpart is code shared by both container versions (discriminator without version)
 SHARED_STAGES = {"srk-revoked", "overlap", "image-hash", "image-range", "image-decrypt", "image-array", "blob"}
@@ -769,6 +833,17 @@ def run_case(case: dict, seed: int) -> dict:
                     raise
                 except Exception as e2:  # noqa
                     out["count"]["obs:bypass-export-failed:" + type(e2).__name__] = 1
+            if e.stage == "export" and e.paths:
+                # whose fault is the refusal?  (REFUSAL_TABLE)
+                auto = p["off"] == "auto" or p["mem"] == "serial_downloader"
+                classes = [classify_refusal(q, auto) for q in e.paths]
+                for cls, name in sorted(set(classes)):
+                    out["count"][f"refusal:{cls}:{name}"] = 1
+                computed = sorted({name for cls, name in classes if cls == "computed"})
+                if computed and not any(cls == "user" for cls, _ in classes) and not any(v[0] == "C06.verify-built-clean" for v in out["viol"]):
+                    out["viol"].append(("C06.builder-refuses-own-layout", computed[0],
+                                        f"load_from_config accepted the configuration, export() refuses its own layout: "
+                                        f"{[q for q in e.paths if classify_refusal(q, auto)[0] == 'computed'][:3]}"))
             return out
         except WrongType as e:
             k = f"obs:build-error-type:{type(e.exc).__name__}@{_site(e.exc)}"
@@ -1187,6 +1262,26 @@ def enumerate_cases(tier: str, sv: list) -> dict:
                     for i in range(parts):
                         byt.append({"i": info, "k": "s", "d": d, "t": mode, "tp": [i, parts]})
     fam["bytes"] = byt
+    # full product SRK key type x DEK blob x certificate (two / three departures: never reached by k <= 1), every representative
+    # and every container version it offers; with the region-wise tamper sweep
+    kp = []
+    for rs in reps:
+        info = rs[0]
+        for v in info["v"]:
+            for srk in SRK_SETS:
+                for enc in ("no", "blob", "enc128"):
+                    for cert in (("no", "container") if info["cert"] and v == 2 else ("no",)):
+                        d: dict = {}
+                        if srk != "p256":
+                            d["srk"] = srk
+                        if enc != "no":
+                            d["enc"] = enc
+                        if cert != "no":
+                            d["cert"] = cert
+                        if v != info["v"][0]:
+                            d["cv"] = v
+                        kp.append({"i": info, "k": "s", "d": d, "t": 1})
+    fam["keys"] = kp
     # cli
     cli = []
     for rs in reps:
@@ -1201,7 +1296,7 @@ def enumerate_cases(tier: str, sv: list) -> dict:
     if lat2:
         fam["lat k=2"] = lat2
     # execution order: the cheap families with the widest reach first, the big products last
-    order = ["base", "cli", "lat k=1", "bytes", "grid", "lat k=2"]
+    order = ["base", "cli", "keys", "lat k=1", "bytes", "grid", "lat k=2"]
     return {n: fam[n] for n in order if n in fam}
 
 
@@ -1250,7 +1345,8 @@ def run(ctx: core.Ctx) -> None:
         "offset) with single-bit flips at the first/middle/last byte of every authenticated region; lat = on %s per "
         "equivalence class of the AHAB database data (%d classes): every assignment of the option dimensions with <= %d "
         "departures from the base, both kinds%s; grid = full product memory x offset mode x size class x images per "
-        "container x containers; bytes = every byte (%s) of every authenticated region of the signed base per container "
+        "container x containers; keys = full product SRK key type (8) x DEK blob {absent, present, present + encrypted image} x "
+        "certificate {absent, present} per class representative and container version, with tamper sweep; bytes = every byte (%s) of every authenticated region of the signed base per container "
         "version x key type (+ encrypted, + certificate); cli = nxpimage ahab export / verify / parse per class and kind. "
         "A case is distinct/non-trivial when the builder accepted it and the independent reader decoded it; the token is "
         "(class, kind, departures)."
@@ -1266,7 +1362,7 @@ def run(ctx: core.Ctx) -> None:
             ctx.cov["families"][name] = {"cases": len(cases), "done": 0, "completed": False}
             continue
         n = acc = rej = err = 0
-        heavy = name in ("bytes", "cli", "base", "lat k=1")
+        heavy = name in ("bytes", "cli", "base", "lat k=1", "keys")
         gen = ctx.pool_map(w_case, cases, timeout=600 if heavy else 120, initfn=_init_worker, chunksize=1 if heavy else 4,
                            check_det=2)
         cut = False
@@ -1311,6 +1407,9 @@ def run(ctx: core.Ctx) -> None:
         if not cut:
             ctx.cov["bounds_completed"].append(name)
     ctx.cov["per_dimension"] = per_dim
+    # why export() refused: cases per (class, record) - "unknown" records are visible here by name
+    ctx.cov["export_refusals_by_record"] = {k.split(":", 1)[1]: v for k, v in sorted(ctx.counters.items()) if k.startswith("refusal:")}
+    ctx.cov["refusal_table"] = [{"record": rx, "class": cls, "why": why} for rx, cls, why in REFUSAL_TABLE]
     ctx.cov["rejected_samples"] = rejected_samples
     ctx.cov["builder_errors_non_spsdk"] = builder_errors
     ctx.cov["clauses"] = CLAUSES
